@@ -19,7 +19,8 @@
          the generated `lexerdef()` (lrlex/src/lib/ctbuilder.rs:780-825).
 
    Definitions only; statements in Spec.v, proofs in Proofs.v. *)
-From Coq Require Import List Arith NArith Bool Lia Decimal DecimalNat.
+From Coq Require Import List Arith NArith Bool Lia.
+From Coq Require Decimal DecimalNat.
 From GV Require Import Common.Outcome.
 Import ListNotations.
 
@@ -174,17 +175,17 @@ Arguments unpack {V} syms drain.
 (* decimal rendering of format_ident!("{}arg_{}", ACTION_PREFIX, i + 1) *)
 Fixpoint uint_codes (u : Decimal.uint) : list N :=
   match u with
-  | Nil => []
-  | D0 u' => 48%N :: uint_codes u'
-  | D1 u' => 49%N :: uint_codes u'
-  | D2 u' => 50%N :: uint_codes u'
-  | D3 u' => 51%N :: uint_codes u'
-  | D4 u' => 52%N :: uint_codes u'
-  | D5 u' => 53%N :: uint_codes u'
-  | D6 u' => 54%N :: uint_codes u'
-  | D7 u' => 55%N :: uint_codes u'
-  | D8 u' => 56%N :: uint_codes u'
-  | D9 u' => 57%N :: uint_codes u'
+  | Decimal.Nil => []
+  | Decimal.D0 u' => 48%N :: uint_codes u'
+  | Decimal.D1 u' => 49%N :: uint_codes u'
+  | Decimal.D2 u' => 50%N :: uint_codes u'
+  | Decimal.D3 u' => 51%N :: uint_codes u'
+  | Decimal.D4 u' => 52%N :: uint_codes u'
+  | Decimal.D5 u' => 53%N :: uint_codes u'
+  | Decimal.D6 u' => 54%N :: uint_codes u'
+  | Decimal.D7 u' => 55%N :: uint_codes u'
+  | Decimal.D8 u' => 56%N :: uint_codes u'
+  | Decimal.D9 u' => 57%N :: uint_codes u'
   end.
 Definition decimal (n : nat) : list N := uint_codes (Nat.to_uint n).
 
